@@ -60,6 +60,11 @@ func encRun(r *run, prop string, c *encCase) {
 	slog.SetFlags(fl | slog.LnoInterrupt)
 	slog.SetLevelOutputWidth(c.tagW)
 	slog.SetMessageMinimalWidth(c.minW)
+	if (len(c.msg)+c.lvl)%3 == 0 {
+		// values outside the documented ranges are refused and leave the configured widths in place
+		slog.SetLevelOutputWidth([]int{0, -1, 6, 100}[(len(c.msg)+c.tagW)%4])
+		slog.SetMessageMinimalWidth([]int{15, 0, -3}[(len(c.msg)+c.minW)%3])
+	}
 	c.tsText = c.ts.UTC().Format(encLayout)
 	panicked := ""
 	func() {
